@@ -199,8 +199,12 @@ def check(ctx, rep):
             rep.bad('R20.g', key_, 'process-wide mutable static %s : %s in the type generator: what it remembers from one description can change the '
                     'registry derived from the next' % (norm(st_['path']), ty_))
     # ---- R20.d
-    fs = [f for f in fns if f.npath == 'crux_cli::codegen::format']
-    ok = len(fs) == 1 and fs[0].locals[0].startswith('alloc::collections::btree::map::BTreeMap<alloc::string::String,')
+    # (whatever the functions are called: every function of the generator that returns a map of containers returns an ordered one, and
+    # the registry the entry point hands back is one of them)
+    REG = re.compile(r'(alloc::collections::btree::map::BTreeMap|std::collections::hash::map::HashMap|indexmap::\w+::IndexMap)<alloc::string::String, [\w:]*ContainerFormat')
+    holders = [(f, REG.search(str(f.locals[0]))) for f in fns if f.kind in ('Fn', 'AssocFn') and REG.search(str(f.locals[0]))]
+    ok = bool(holders) and all(m.group(1).endswith('BTreeMap') for f, m in holders) and \
+        any(f.npath.startswith('crux_cli::codegen::') and f.npath.count('::') == 2 for f, m in holders)
     rep.expect('R20.d', ok, 'registry-type', 'codegen::format returns BTreeMap<String, ContainerFormat>',
                'the registry returned by codegen::format is no longer a BTreeMap keyed by type name')
     adt = cli.adts.get('crux_cli::codegen::serde_generate::format::ContainerFormat')
